@@ -23,6 +23,32 @@ claim("C01",
       BOUNDED,
       "explicit-state BFS over add histories of the real estimator, exact-rational reference oracle on every transition")
 
+claim("C05",
+      "Bounded exhaustive exploration of the real Quantile next to a from-the-paper P² reference: for 13 values of p, every stream over a tie-heavy 4-value and a distinct 6-value alphabet up to the depth bound (plus trending streams in the thorough tier); after each observation from the fifth, quantile() and the serde-visible marker heights and positions must equal the reference (positions exactly, heights within 2^-40 of the data span). "
+      "New minima/maxima, ties, p = 0/1 and all arrival orders are members of the enumerated family, which the suite's three fixed streams never reach.",
+      BOUNDED + " The reference model is trusted to transcribe Jain & Chlamtac 1985, Box 1.",
+      "explicit-state BFS over add histories of the real estimator in lock-step with a reference model (P² as printed in the paper)")
+
+claim("C06",
+      "Exhaustive product enumeration on the real macro-generated histograms: every edge vector from_ranges accepts over the 9-value edge lattice for LEN 1..4 (and every non-decreasing vector over 3-/4-value lattices, with infinite outer edges, for LEN 10 and 100) x a sample set built from every edge, its floating-point neighbours, midpoints, +-inf, NaN, +-0, +-MAX; find() and add() are compared with a linear bin scan; plus BFS over add histories with ghost bins and a ghost success counter.",
+      BOUNDED + " LEN 10/100 are covered on structured lattice families, not on all edge vectors. The const-generic implementation (nightly) is covered by the thorough tier only.",
+      "exhaustive enumeration of configurations x inputs on the real code against a linear-scan reference; BFS over add histories with ghost state")
+
+claim("C07",
+      "Exhaustive: every p in {0,1} U {k/n, k/n +- 1ulp} U pgrid x every sequence of 1..4 observations over a 5-value alphabet (all permutations of all multisets, duplicates included); quantile() after every add against the exact sample quantile with n·p evaluated in integer arithmetic.",
+      BOUNDED,
+      "explicit-state BFS (depth 4) over add histories of the real estimator against an exact small-sample reference")
+
+claim("C10",
+      "Bounded exhaustive exploration: every add-sequence over seven alphabets (skew of both signs, offsets) for Variance, Skewness, Kurtosis and define_moments! types of order 4, 6, 10; sample_variance, variance_of_mean, error, sample_skewness and sample_excess_kurtosis at every prefix (below-minimum sizes included) against the textbook formulas on exact rational central moments, under the C03/C04 envelopes.",
+      BOUNDED,
+      "explicit-state BFS over add histories of the real estimators, exact-rational reference oracle on every transition")
+
+claim("C15",
+      "Invariant checking on every reachable state of the C05 stream families from the first observation on: len/is_empty/p() read-back, quantile() NaN iff empty and otherwise inside the ghost [min,max], from five observations on serialised marker heights non-decreasing with first = running minimum and last = running maximum; constant streams to length 40/400; constructor grid (panic iff p outside [0,1] or NaN).",
+      BOUNDED,
+      "explicit-state BFS over add histories of the real estimator with state invariants and ghost min/max")
+
 ALL = [f"C{i:02d}" for i in range(1, 21)]
 
 def main():
